@@ -4,6 +4,7 @@ CONSTANTS
   MaxLen = 0
   NameLen = 3
   PairLen = 2
+  LongLen = 5
   SecLen = 0
   ValLen = 0
   BatchLen = 0
